@@ -21,7 +21,10 @@ ROOT = os.path.dirname(os.path.dirname(os.path.abspath(__file__)))
 
 
 def sh(cmd, **kw):
-    return subprocess.run(cmd, shell=True, capture_output=True, text=True, **kw)
+    # background shells start children with SIGINT ignored; demos that send a real SIGINT need the default
+    import signal
+    return subprocess.run(cmd, shell=True, capture_output=True, text=True,
+                          preexec_fn=lambda: signal.signal(signal.SIGINT, signal.SIG_DFL), **kw)
 
 
 def confirm(src):
